@@ -22,7 +22,9 @@ THEOREMS = ['Pylx.Split.C18_partition', 'Pylx.Split.C18_part_position', 'Pylx.Sp
             'Pylx.Split.C18_total', 'Pylx.Split.C18_fixed_terminates', 'Pylx.Split.C18_keep_empty', 'Pylx.Split.C18_max_split',
             'Pylx.Split.C18_split_node', 'Pylx.Split.C18_asis_split_node_one_short', 'Pylx.Split.C18_keyval',
             'Pylx.Split.C18_asIs_eq_fixed', 'Pylx.Split.C18_asIs_keep_empty_false', 'Pylx.Split.C18_asIs_negative_start',
-            'Pylx.Split.C18_asIs_empty_match', 'Pylx.Split.C18_asIs_keyval_first_equals', 'Pylx.Split.C18_asIs_policy_first']
+            'Pylx.Split.C18_asIs_empty_match', 'Pylx.Split.C18_asIs_keyval_first_equals', 'Pylx.Split.C18_asIs_policy_first',
+            'Pylx.Split.C18_argview_same_delims', 'Pylx.Split.C18_argview_unwrap', 'Pylx.Split.C18_argview_no_unwrap', 'Pylx.Split.C18_argview_keyval']
+PROOF_MODULES = ['C18', 'C18ArgView']
 RULE = ('SPLIT/KEYVAL: all concatenations of up to k atoms over {sep, letter, group containing seps, macro with argument containing seps, '
         'comment containing seps, math, specials} x keep_empty x max_split None,0..3 x skip_none (None entries spliced in) x separator given as '
         'str / compiled regex / callable (tuple, match object, list protocols) / node predicate x repeated-key policy; '
@@ -213,6 +215,8 @@ def _dump_val(s, v):
 
 def to_line(c):
     k = c['k']
+    if k == 'argview':
+        return _argview_line(c)
     if k not in ('chars', 'node', 'kv'):
         return None
     s = _src(c)
@@ -534,6 +538,59 @@ def _arg_db():
         _ARGDB.append(db)
     return _ARGDB[0]
 
+def _argview_parse(c):
+    """(s, walker, macro node, argument index, argument node) or None"""
+    from pylatexenc.latexwalker import LatexWalker
+    from pylatexenc.latexnodes.parsers import LatexGeneralNodesParser
+    from pylatexenc.latexnodes import nodes as N
+    body = _src(c)
+    wrap = c['wrap']
+    s = {'m': '\\cmd{%s}', 'o': '\\cmd[%s]{z}', 'mg': '\\cmd{{%s}}', 'og': '\\cmd[{%s}]{z}', 'mgx': '\\cmd{{%s}x}', 'absent': '\\cmd {%s}', 'tok': '\\one %s'}[wrap] % body
+    ai = 0 if wrap in ('o', 'og', 'absent') else (0 if wrap == 'tok' else 1)
+    try:
+        w = LatexWalker(s, latex_context=_arg_db(), tolerant_parsing=False)
+        nl, _ = w.parse_content(LatexGeneralNodesParser())
+    except Exception:
+        return None
+    node = nl[0]
+    if not isinstance(node, N.LatexMacroNode) or node.nodeargd is None or len(node.nodeargd.argnlist) <= ai:
+        return None
+    return s, w, node, ai, node.nodeargd.argnlist[ai]
+
+def _argview_line(c):
+    """driver line ARGV: the argument as the model's ArgV (flattened as for SPLIT)"""
+    from pylatexenc.latexnodes import nodes as N
+    r = _argview_parse(c)
+    if r is None:
+        return None
+    s, w, node, ai, arg = r
+    uw = 'T' if c.get('uw', True) else 'F'
+    if arg is None:
+        return '\t'.join(['ARGV', 'absent', uw, '', '', '-', ''])
+    if isinstance(arg, N.LatexNodeList):
+        its = _flat_items(s, arg)
+        return None if its is None else '\t'.join(['ARGV', 'list', uw, '', its, '-', ''])
+    if isinstance(arg, N.LatexGroupNode):
+        if not isinstance(arg.nodelist, N.LatexNodeList):
+            return None
+        its = _flat_items(s, arg.nodelist)
+        if its is None:
+            return None
+        so, sits = '-', ''
+        inner = list(arg.nodelist)
+        if len(inner) == 1 and isinstance(inner[0], N.LatexGroupNode):
+            if not isinstance(inner[0].nodelist, N.LatexNodeList):
+                return None
+            sits = _flat_items(s, inner[0].nodelist)
+            if sits is None:
+                return None
+            so = wire(inner[0].delimiters[0])
+            if so == '-' or so == '':
+                return None
+        return '\t'.join(['ARGV', 'group', uw, wire(arg.delimiters[0]), its, so, sits])
+    its = _flat_items(s, N.LatexNodeList([arg]))
+    return None if its is None else '\t'.join(['ARGV', 'single', uw, '', its, '-', ''])
+
 def _impl_argview(c):
     """`\\cmd[<o>]{<m>}`: the content view of an argument is the group's node list (for an argument that is ONE group with
     DIFFERENT delimiters — `[{…}]` — that inner group's node list, as documented), a single-token argument is itself, an absent
@@ -565,6 +622,16 @@ def _impl_argview(c):
     else:
         want_nodes = [arg]
     info = ParsedArgumentsInfo(node=node).get_argument_info(ai)
+    if not c.get('uw', True):
+        # documented flag: no double unwrap — the content is the group's own node list
+        got = info.get_content_nodelist(unwrap_double_group=False)
+        want0 = list(arg.nodelist) if isinstance(arg, N.LatexGroupNode) else ([None] if arg is None else [arg])
+        ident0 = lambda l: [None if n is None else (type(n).__name__, n.pos, n.pos_end) for n in l]
+        out0 = 'ok ' + ' '.join(_dump_item(s, n) for n in got)
+        if ident0(got) != ident0(want0):
+            return {'out': out0, 'sig': 'argview:nouw', 'fail': {'kind': 'argview-content', 'detail': 'argument %d of %r: get_content_nodelist(unwrap_double_group=False) gives %r, the group\'s own content is %r'
+                                                                  % (ai, s, ident0(got), ident0(want0))}}
+        return {'out': out0, 'fail': None, 'sig': 'argview:nouw:%s' % wrap}
     got = info.get_content_nodelist()
     ident = lambda l: [None if n is None else (type(n).__name__, n.pos, n.pos_end) for n in l]
     out = 'ok ' + ' '.join(_dump_item(s, n) for n in got)
@@ -607,7 +674,7 @@ def _impl_argview(c):
     gc, wc = chars(info.get_content_as_chars), chars(wl.get_content_as_chars)
     if gc != wc:
         return {'out': out, 'sig': sig, 'fail': {'kind': 'argview-chars', 'detail': 'argument %d of %r: get_content_as_chars() %r, on the documented content %r' % (ai, s, gc, wc)}}
-    return {'out': out + ' | ' + repr(g)[:200], 'fail': None, 'sig': sig + ':' + g[0]}
+    return {'out': out, 'fail': None, 'sig': sig + ':' + g[0]}
 
 # ---------------------------------------------------------------- oracle-only kinds
 
@@ -762,7 +829,7 @@ def cases(tier, rng):
             yield {'k': 'argview', 'atoms': atoms, 'wrap': wrap, 'pol': 'concatenate', 'eg': True}
     for _ in range(1500 if quick else 30000):
         atoms = [rng.choice(A_KV) for _ in range(rng.randint(0, 8))]
-        yield {'k': 'argview', 'atoms': atoms, 'wrap': rng.choice(WRAPS), 'pol': rng.choice(POLS), 'eg': rng.random() < 0.7}
+        yield {'k': 'argview', 'atoms': atoms, 'wrap': rng.choice(WRAPS), 'pol': rng.choice(POLS), 'eg': rng.random() < 0.7, 'uw': rng.random() < 0.8}
     # 5. oracle-only: callable protocol, empty matches
     for atoms in (['a'], ['a', ',', 'b'], [',', 'a'], ['a', ',']):
         for ke in (False, True):
